@@ -45,14 +45,18 @@ def setup():
     sglx.patch()
 
 
-def case_imec(ctx, kind, band, n, extra_imro):
+def case_imec(ctx, kind, band, n, extra_imro, nsync=1, new_header=False):
     import spikeglx
     P = sglx.PROBE_TYPES[kind]
     gains = [(ctx.int(f"ap{i}", 1, 10000), ctx.int(f"lf{i}", 1, 10000)) for i in range(n)]
     T = ctx.real("fileTimeSecs", 0, 100000)
     sites = [(0, i % 2, i // 2) for i in range(n)]
     fs_txt = "30000.390639481" if kind != "3A" else "30000"
-    txt = sglx.imec_meta_text(kind, sites, gains=gains, band=band, ns=sglx.S(T), fs_hz=fs_txt, imro_extra_entries=extra_imro)
+    extra = None
+    if new_header:
+        # keys written by recent SpikeGLX versions (2022+): they describe channel 0 only and must not override the per-channel table
+        extra = [f"imChan0apGain={sglx.S(gains[0][0])}", f"imChan0lfGain={sglx.S(gains[0][1])}", "imAnyChanFullBand=false", "imChan0Ref=ext", "imIsSvyRun=false", "imLowLatency=false"]
+    txt = sglx.imec_meta_text(kind, sites, gains=gains, band=band, ns=sglx.S(T), fs_hz=fs_txt, imro_extra_entries=extra_imro, nsync=nsync, extra=extra)
     F, binp = sglx.install_recording("/d/x.imec." + band, txt, content=None, size=0)
     sr = ctx.call("reader_init", spikeglx.Reader, binp, open=False)
     md = sr.meta
@@ -61,15 +65,15 @@ def case_imec(ctx, kind, band, n, extra_imro):
     ctx.oblige("stream_type", sr.type == band, detail={"got": str(sr.type)})
     fs_val = Fraction(float(fs_txt))
     ctx.oblige("sampling_rate", core.eq(sr.fs, float(fs_txt)))
-    ctx.oblige("channel_count", core.eq(sr.nc, n + 1))
-    ctx.oblige("sync_count", core.eq(sr.nsync, 1))
-    ctx.oblige("sync_indices_are_last_channels", list(spikeglx._get_sync_trace_indices_from_meta(md)) == [n])
+    ctx.oblige("channel_count", core.eq(sr.nc, n + nsync))
+    ctx.oblige("sync_count", core.eq(sr.nsync, nsync), detail={"nsync": sr.nsync})
+    ctx.oblige("sync_indices_are_last_channels", list(spikeglx._get_sync_trace_indices_from_meta(md)) == list(range(n, n + nsync)), detail={"got": str(spikeglx._get_sync_trace_indices_from_meta(md))})
     ctx.oblige("no_analog_sync_on_imec", list(spikeglx._get_analog_sync_trace_indices_from_meta(md)) == [])
     ns = sr.ns
     prod = T * fs_val
     ctx.oblige("sample_count_is_rounded_duration_times_rate", and_(core._as_real(ns) - prod <= Fraction(1, 2), prod - core._as_real(ns) <= Fraction(1, 2)), detail={"ns": ns})
     s2v = sr.sample2volts
-    if not ctx.oblige("factor_vector_length_is_channel_count", s2v.shape == (n + 1,), detail={"shape": str(s2v.shape)}):
+    if not ctx.oblige("factor_vector_length_is_channel_count", s2v.shape == (n + nsync,), detail={"shape": str(s2v.shape)}):
         return
     rng = Fraction(float(P["rng"]))
     k = Fraction(float(P["rng"]) / MAXINT[kind])  # the double the code computes
@@ -82,7 +86,8 @@ def case_imec(ctx, kind, band, n, extra_imro):
             ctx.oblige("factor_is_range_over_maxint_over_gain", core.eq(s2v[c] * g, core._as_real(k)), detail={"c": c, "factor": s2v[c]})
         else:
             ctx.oblige("np2_factor_is_range_over_maxint_over_80", abs(float(s2v[c]) - float(k) / 80) <= 1e-7 * float(k) / 80, detail={"c": c})
-    ctx.oblige("sync_factor_is_one", core.eq(s2v[n], 1))
+    if nsync:
+        ctx.oblige("sync_factor_is_one", core.eq(s2v[n], 1))
     rv = sr.range_volts
     for c in range(n):
         ctx.oblige("range_volts_is_factor_times_maxint", core.eq(rv[c], s2v[c] * MAXINT[kind]), detail={"c": c})
@@ -172,6 +177,9 @@ def cases(tier):
             if band == "lf" and kind.startswith("NP2") and tier == "quick":
                 continue
             cs.append(Case(f"imec_{kind}_{band}", "case_imec", {"kind": kind, "band": band, "n": b["sites"], "extra_imro": 0}))
+    cs.append(Case("imec_3B2_ap_recent_header", "case_imec", {"kind": "3B2", "band": "ap", "n": b["sites"], "extra_imro": 0, "new_header": True}))
+    cs.append(Case("imec_3B2_ap_saved_without_sync", "case_imec", {"kind": "3B2", "band": "ap", "n": b["sites"], "extra_imro": 0, "nsync": 0}))
+    cs.append(Case("imec_NP2.1_lf_saved_without_sync", "case_imec", {"kind": "NP2.1", "band": "lf", "n": b["sites"], "extra_imro": 0, "nsync": 0}))
     cs.append(Case("imec_3B2_ap_subset", "case_imec", {"kind": "3B2", "band": "ap", "n": b["sites"], "extra_imro": 2}))
     cs.append(Case("imec_3A_lf_subset", "case_imec", {"kind": "3A", "band": "lf", "n": b["sites"], "extra_imro": 2}))
     for (mn, ma, xa, dw) in ((0, 0, 1, 1), (2, 1, 2, 1), (1, 0, 0, 1)) + (((3, 2, 1, 1),) if tier == "thorough" else ()):
@@ -215,21 +223,23 @@ gains = {gains}
 sites = [(0, i % 2, i // 2) for i in range(n)]
 fs_txt = "30000.390639481" if kind != "3A" else "30000"
 T = {T!r}
-txt = sglx.imec_meta_text(kind, sites, gains=gains, band=band, ns=repr(T), fs_hz=fs_txt, imro_extra_entries={extra})
+nsync, new_header = {params.get('nsync', 1)}, {params.get('new_header', False)}
+extra_lines = [f"imChan0apGain={{gains[0][0]}}", f"imChan0lfGain={{gains[0][1]}}", "imAnyChanFullBand=false", "imChan0Ref=ext", "imIsSvyRun=false", "imLowLatency=false"] if new_header else None
+txt = sglx.imec_meta_text(kind, sites, gains=gains, band=band, ns=repr(T), fs_hz=fs_txt, imro_extra_entries={extra}, nsync=nsync, extra=extra_lines)
 d = pathlib.Path(tempfile.mkdtemp())
 (d / f'x.imec.{{band}}.meta').write_text(txt)
 sr = spikeglx.Reader(d / f'x.imec.{{band}}.meta', open=False)
 P = sglx.PROBE_TYPES[kind]
 maxint = {MAXINT[kind]}
 k = float(P['rng']) / maxint
-exp = np.array([(k / (g[0] if band == 'ap' else g[1])) if (P['major'] == 1 or kind == 'NPultra') else k / 80 for g in gains] + [1.0])
+exp = np.array([(k / (g[0] if band == 'ap' else g[1])) if (P['major'] == 1 or kind == 'NPultra') else k / 80 for g in gains] + [1.0] * nsync)
 s2v = sr.sample2volts
 print(sr.version, sr.type, sr.nc, sr.nsync, sr.ns, s2v, exp)
 bad = []
 if sr.version != {VERSIONS[kind]!r}: bad.append('version')
 if sr.type != band: bad.append('type')
-if sr.nc != n + 1 or sr.nsync != 1: bad.append('counts')
-if spikeglx._get_sync_trace_indices_from_meta(sr.meta) != [n]: bad.append('sync idx')
+if sr.nc != n + nsync or sr.nsync != nsync: bad.append(('counts', sr.nc, sr.nsync))
+if spikeglx._get_sync_trace_indices_from_meta(sr.meta) != list(range(n, n + nsync)): bad.append(('sync idx', spikeglx._get_sync_trace_indices_from_meta(sr.meta)))
 if s2v.shape != exp.shape or not np.allclose(s2v, exp, rtol=1e-6): bad.append('factor')
 if abs(sr.ns - T * float(fs_txt)) > 0.5 + 1e-6: bad.append('ns')
 if not np.allclose(sr.range_volts[:n], s2v[:n] * maxint): bad.append('range_volts')
